@@ -563,8 +563,13 @@ fn run(case: &Case, out: &mut Out) {
                     if !h.is_empty() && h[0] != b'.' && !oracle.front_matches(&f, h, p, m) {
                         let after = do_lookup(&router, h, p, m);
                         if after != before[i] {
-                            // the frontend's host covers the request host, only its path/method do not match
-                            let shadow = f.pos == 2 && oracle.tree_host(&f.host, h).is_some();
+                            // Host shadowing (known finding), and only that shape: the operation creates or
+                            // deletes the leaf of a hostname that covers the request host, only its path/method
+                            // do not match, and no other configured hostname is more specific for that host.
+                            let fsp = if f.pos == 2 { oracle.tree_host(&f.host, h) } else { None };
+                            let others_same_host = live.iter().filter(|x| x.pos == 2 && x.host == f.host && !x.same_identity(&f)).count();
+                            let more_specific = live.iter().any(|x| x.pos == 2 && x.host != f.host && oracle.tree_host(&x.host, h) > fsp);
+                            let shadow = fsp.is_some() && others_same_host == 0 && !more_specific;
                             out.viol(
                                 cls(if shadow { "unrelated-shadow" } else { "unrelated-change" }),
                                 &format!(
